@@ -339,18 +339,22 @@ class Encoder(object):
 
 
 _ctr = [0]
+_tcache = {}
 _cache = {}      # identical scripts (e.g. the double and long double instantiations yield the same term) are solved once per process
 
 
 def run_solver(script, timeout=60, solver=Z3, workdir=None, tag='q', mem_mb=8000):
     """-> dict(verdict in sat/unsat/unknown/timeout/error, time, output)"""
     h = hashlib.sha1(script.encode()).hexdigest()[:12]
-    ck = (h, solver, int(timeout))
+    ck = (h, solver)
     if ck in _cache:
         r = dict(_cache[ck])
         r['cached'] = True
         r['time'] = 0.0
         return r
+    if _tcache.get(ck, -1) >= int(timeout):
+        # the same script already ran out of an equal or larger budget in this process (the solver is deterministic)
+        return dict(verdict='timeout', time=0.0, output='', solver=os.path.basename(solver), hash=h, cached=True)
     _ctr[0] += 1
     path = os.path.join(workdir or '/tmp', '%s-%s-%d-%d.smt2' % (tag, h, os.getpid(), _ctr[0]))
     with open(path, 'w') as fh:
@@ -383,6 +387,8 @@ def run_solver(script, timeout=60, solver=Z3, workdir=None, tag='q', mem_mb=8000
     res = dict(verdict=verdict, time=dt, output=out if verdict in ('error', 'sat') else '', solver=name, hash=h)
     if verdict in ('sat', 'unsat'):
         _cache[ck] = res
+    elif verdict == 'timeout':
+        _tcache[ck] = max(_tcache.get(ck, -1), int(timeout))
     return res
 
 
